@@ -6,7 +6,7 @@
    on the interleaving it happened to draw. *)
 From Coq Require Import String List Bool Arith Permutation.
 From Coca Require Import Lib.Sx Lib.Str Lib.GoMap Lib.Shape Model.CodeModel Model.GitSummary Model.Evaluate
-     Proofs.GitSummaryProofs Proofs.EvaluateProofs Proofs.ShapeProofs Entry.C08.
+     Proofs.GitSummaryProofs Proofs.EvaluateProofs Proofs.ShapeProofs Proofs.FanProofs Model.Arch Entry.C08.
 Import ListNotations.
 Open Scope string_scope.
 
@@ -58,6 +58,16 @@ Theorem C08_function_order_free : forall d fs fs',
     Permutation fs fs' -> nf ds_shape (sx_of_ds (with_funcs d fs)) = nf ds_shape (sx_of_ds (with_funcs d fs')).
 Proof. exact entry_function_order_free. Qed.
 Print Assumptions C08_function_order_free.
+
+(* 7. the fan table (SortedByFan): one row per node of the merged graph, in non-increasing order of
+      fan-in + fan-out - the promised order; rows with the same total may come in any order *)
+Theorem C08_fan_table_rows : forall f g, Permutation (sorted_by_fan f g) (fan_rows (merge_graph f g)).
+Proof. exact sorted_by_fan_rows. Qed.
+Print Assumptions C08_fan_table_rows.
+
+Theorem C08_fan_table_sorted : forall f g, Sorted.StronglySorted fan_ge (sorted_by_fan f g).
+Proof. exact sorted_by_fan_sorted. Qed.
+Print Assumptions C08_fan_table_sorted.
 
 (* non-vacuity: the normal form separates different collections and different promised orders *)
 Example C08_normal_form_separates :
